@@ -829,6 +829,7 @@ def protocol_ok(line):
 
 
 ALLOC_RE = re.compile(r" ALLOC req=(\d+) live=(\d+) bytes=\d+ peak=\d+ files=(\d+) failed=(\d+)")
+RQ_RE = re.compile(r" rq=\d+")
 FINAL_RE = re.compile(r" final=(\d+) files=(\d+)")
 
 
@@ -838,7 +839,7 @@ def mem_run(drvm, fam, model, show, dump):
     nbad = 0
     leaks_in_protocol = []
     for name, lines in fam.items():
-        cout = run_lines_parallel(drvm, lines)
+        cout = [RQ_RE.sub("", c) for c in run_lines_parallel(drvm, lines)]
         mout = run_lines_parallel([model], ["rdrmem" + l[3:] for l in lines])
         cnt = collections.Counter()
         mism = []
